@@ -95,6 +95,14 @@ var Corpus = []CorpusEntry{
 		return one(SSet("", VStr("v")), SGet(""), KGet(""), KExists(""), KRename("", "k2"), SGet("k2"), KRenameNX("k2", ""), KGet(""),
 			HSet("", "", VStr("")), LPushBack("k3", VStr("")), KKeys(""), KKeys("*"))
 	}},
+	{Name: "list_insert_53_times_before_one_element", Props: []string{"C02"}, Known: "kf_list_position_exhausted", Build: func(b int64) []*Step {
+		ops := []*Op{LPushBack("k1", VStr("a")), LPushBack("k1", VStr("b"))}
+		for i := 0; i < 55; i++ {
+			ops = append(ops, LInsertBefore("k1", VStr("b"), VStr(fmt.Sprintf("m%d", i))))
+		}
+		ops = append(ops, LLen("k1"), LRange("k1", 0, 3), LPopBack("k1"), LInsertAfter("k1", VStr("a"), VStr("z")), LRange("k1", 0, 2))
+		return one(ops...)
+	}},
 	{Name: "key_len_counts_expired_keys", Props: []string{"C06", "C10"}, Known: "kf_keylen_counts_expired", Build: func(b int64) []*Step {
 		return one(SSet("k1", VStr("v")), SSet("k2", VStr("w")), KExpireAt("k1", b-2*hour), KLen(), KCount("k1", "k2"))
 	}},
